@@ -1225,6 +1225,13 @@ func (c *Compiler) writeCopy(node *node, l, r string, depth int) error {
 			if node.ptr {
 				c.wl("}")
 			}
+		} else if node.ptr {
+			c.wl("if ", r, "!=nil{")
+			c.wl("if ", l, "==nil{")
+			c.wl(l, "=new(", strings.Trim(node.typn, "*"), ")")
+			c.wl("}")
+			c.wl("*", l, "=*", r)
+			c.wl("}")
 		} else {
 			c.wl(l, "=", r)
 		}
